@@ -18,6 +18,7 @@ THEOREMS = [
     "Mesa.Legacy.C09_get_neighbors_exact",
     "Mesa.Legacy.C09_network_spec",
     "Mesa.Legacy.C09_network_all_simple_graphs",
+    "Mesa.Legacy.C09_cell_list_contents_any_integers",
     "Mesa.Legacy.C09_network_contents_spec",
     "Mesa.Legacy.C09_network_neighbors_exact",
 ]
